@@ -888,7 +888,7 @@ Lemma pre_items_zpre : forall n its, length its = n -> forall a z,
   normal its -> Rz a z -> WFz z (length its) ->
   match zpre (toks its) z, trailing_kw its with
   | Some z', false => exists a', pre_items its a = IOk a' /\ Rz a' z' /\ WFz z' 0
-  | _, _ => exists e, pre_items its a = IErr e /\ e <> E_FUEL
+  | _, _ => exists e, pre_items its a = IErr e /\ (e = E_END \/ e = E_MISSING)
   end.
 Proof.
   induction n as [n IH] using lt_wf_ind. intros its Hlen a z Hn HR HW.
@@ -897,7 +897,7 @@ Proof.
   - assert (IHr : forall a1 z1, Rz a1 z1 -> WFz z1 (length r) ->
        match zpre (toks r) z1, trailing_kw r with
        | Some z', false => exists a', pre_items r a1 = IOk a' /\ Rz a' z' /\ WFz z' 0
-       | _, _ => exists e, pre_items r a1 = IErr e /\ e <> E_FUEL
+       | _, _ => exists e, pre_items r a1 = IErr e /\ (e = E_END \/ e = E_MISSING)
        end).
     { intros a1 z1 H1 H2. apply (IH (length r)); auto. cbn in Hlen; lia. eapply normal_tail; eauto. }
     destruct HR as (Rj & Rl & Rf & Re & Rx).
@@ -910,7 +910,7 @@ Proof.
       assert (IHs : forall a1 z1, Rz a1 z1 -> WFz z1 (length r) ->
          match zpre (toks r) z1, trailing_kw r with
          | Some z', false => exists a', match r with ISP _ :: r' => pre_items r' a1 | _ => pre_items r a1 end = IOk a' /\ Rz a' z' /\ WFz z' 0
-         | _, _ => exists e, match r with ISP _ :: r' => pre_items r' a1 | _ => pre_items r a1 end = IErr e /\ e <> E_FUEL
+         | _, _ => exists e, match r with ISP _ :: r' => pre_items r' a1 | _ => pre_items r a1 end = IErr e /\ (e = E_END \/ e = E_MISSING)
          end).
       { intros a1 z1 H1 H2. destruct r as [|[| |c|w2] r']; try (apply IHr; assumption).
         cbn [toks trailing_kw]. apply (IH (length r')); auto.
@@ -920,7 +920,7 @@ Proof.
       unfold pre_word_abs.
       destruct (is_kw w) eqn:Ekw.
       * destruct (all_sp r) eqn:Eall.
-        { cbn [andb ibind]. match goal with |- match ?X with _ => _ end => destruct X end; eexists; (split; [reflexivity|discriminate]). }
+        { cbn [andb ibind]. match goal with |- match ?X with _ => _ end => destruct X end; eexists; (split; [reflexivity|left; reflexivity]). }
         cbn [andb].
         destruct (next_is_sp r) eqn:Ensp.
         -- destruct (is_kw_classify w Ekw) as [(-> & ->)|[(-> & ->)|(-> & ->)]];
@@ -933,12 +933,12 @@ Proof.
                  --- unfold Rz, a_bump. cbn. repeat split; auto. rewrite inc64_z; lia.
                  --- unfold WFz. cbn. repeat split; try lia.
            ++ replace (a_fexp a =? a_f a) with (z_fexp z =? z_f z)%Z by lia.
-              destruct (z_fexp z =? z_f z)%Z; cbn [negb ibind]; [|eexists; split; [reflexivity|discriminate]].
+              destruct (z_fexp z =? z_f z)%Z; cbn [negb ibind]; [|eexists; split; [reflexivity|right; reflexivity]].
               apply IHs.
               ** unfold Rz, a_bump. cbn. repeat split; auto; rewrite inc64_z; lia.
               ** unfold WFz. cbn. repeat split; try lia; try discriminate.
            ++ replace (a_fexp a =? a_f a) with (z_fexp z =? z_f z)%Z by lia.
-              destruct (z_fexp z =? z_f z)%Z; cbn [negb ibind]; [|eexists; split; [reflexivity|discriminate]].
+              destruct (z_fexp z =? z_f z)%Z; cbn [negb ibind]; [|eexists; split; [reflexivity|right; reflexivity]].
               apply IHs.
               ** unfold Rz, a_bump. cbn. repeat split; auto; rewrite inc64_z; lia.
               ** unfold WFz. cbn. repeat split; try lia; try discriminate.
@@ -1973,7 +1973,17 @@ Proof.
   - specialize (IH (e + 1)%Z false). destruct ln; lia.
 Qed.
 
-Definition Bnd (s : bytes) : Prop := (Z.of_nat (length s) < 4611686018427387904)%Z.   (* 2^62 *)
+Lemma zc_le ts : forall e ln, (fst (zc ts e ln) <= e + Z.of_nat (length ts))%Z.
+Proof.
+  induction ts as [|t r IH]; intros e ln; [cbn; lia|].
+  destruct t; cbn [zc length]; try (specialize (IH e ln); lia); try (specialize (IH (e + 1)%Z false); lia).
+  destruct ln; [specialize (IH (e - 1)%Z false)|specialize (IH (e + 1)%Z true)]; lia.
+Qed.
+Lemma ntf_le ts : (ntf ts <= length ts)%nat.
+Proof. induction ts as [|[] r IH]; cbn; lia. Qed.
+Lemma toks_length its : (length (toks its) <= length its)%nat.
+Proof. induction its as [|[| | |] r IH]; cbn; lia. Qed.
+Notation Bnd := len_ok.
 
 Lemma init_Rm E Fsz B : (E <= B)%nat -> (Z.of_nat E < ZU)%Z -> (Z.of_nat Fsz < ZU)%Z -> (1 <= E)%nat -> (1 <= Fsz)%nat ->
   Rm E Fsz B
@@ -1999,9 +2009,9 @@ Qed.
 Theorem compile_no_oob_partial lookup v11 s :
   Forall (fun c => c <> 0) s -> Bnd s ->
   depth_nonneg s 0 = true -> not_cancel_adjacent s = true -> rp_sep s = true ->
-  compile lookup v11 s <> IOob /\ compile lookup v11 s <> IErr E_FUEL.
+  compile lookup v11 s <> IOob /\ compile lookup v11 s <> IErr E_FUEL /\ compile lookup v11 s <> IErr E_MEM.
 Proof.
-  intros Hnz Hb Hdepth Hnot Hsep. unfold Bnd in Hb.
+  intros Hnz Hb Hdepth Hnot Hsep. unfold len_ok in Hb.
   set (its := items s). set (T := toks its).
   pose proof (items_normal s Hnz) as Hnorm. pose proof (rp_sep_items s Hsep) as Hsepn.
   pose proof (items_length s) as Hil. fold its in Hnorm, Hsepn, Hil.
@@ -2011,16 +2021,20 @@ Proof.
   { unfold WFz, z0, ZU. cbn [z_f z_e z_fexp z_ln z_j]. repeat split; try lia; try discriminate. }
   pose proof (pre_items_zpre _ its eq_refl pa0 z0 Hnorm HR0 HW0) as Hpre. fold T in Hpre.
   destruct (zpre T z0) as [z'|] eqn:Ez.
-  2:{ destruct Hpre as (e & -> & He). cbn [ibind]. split; congruence. }
+  2:{ destruct Hpre as (e & -> & [-> | ->]); cbn [ibind]; repeat split; discriminate. }
   destruct (trailing_kw its).
-  { destruct Hpre as (e & -> & He). cbn [ibind]. split; congruence. }
+  { destruct Hpre as (e & -> & [-> | ->]); cbn [ibind]; repeat split; discriminate. }
   destruct Hpre as (a' & -> & HRz & HWz). cbn [ibind p_j p_fexp p_fsize p_cv p_esize p_i mk_pre].
   destruct HRz as (Rj & Rl & Rf & Re & Rx).
-  destruct (negb (a_j a' =? 0)%Z) eqn:Ej; [split; discriminate|].
-  destruct (negb (a_fexp a' =? a_f a')) eqn:Efx; [split; discriminate|].
-  destruct ((a_cv a' || (1 <? a_e a')) && negb v11); [split; discriminate|].
-  destruct ((N.of_nat (length s) <? a_e a') || (N.of_nat (length s) <? a_f a')) eqn:Emem; [split; discriminate|].
+  destruct (negb (a_j a' =? 0)%Z) eqn:Ej; [repeat split; discriminate|].
+  destruct (negb (a_fexp a' =? a_f a')) eqn:Efx; [repeat split; discriminate|].
+  destruct ((a_cv a' || (1 <? a_e a')) && negb v11); [repeat split; discriminate|].
   destruct (zpre_facts T z0 z' Ez) as (Hzc & Hzf & Hzj). cbn [z0 z_e z_ln z_f z_j] in Hzc, Hzf, Hzj.
+  assert (Emem : (N.of_nat (length s) <? a_e a') || (N.of_nat (length s) <? a_f a') = false).
+  { pose proof (zc_le T 0%Z false) as Hle1. rewrite <- Hzc in Hle1. cbn [fst] in Hle1.
+    pose proof (ntf_le T) as Hle2. pose proof (toks_length its) as Hle3. fold T in Hle3.
+    clear -Hle1 Hle2 Hle3 Hil Re Rf Hzf. lia. }
+  rewrite Emem.
   (* sizes *)
   remember (N.to_nat (a_e a')) as E eqn:HEdef. remember (N.to_nat (a_f a')) as Fsz eqn:HFdef.
   assert (HEs : (E <= length s)%nat) by lia.
@@ -2057,7 +2071,7 @@ Proof.
                 (inv_init T E Fsz lookup HTnot HTdepth HEz HFsz Hbal)) as Hrun.
   replace (Z.of_nat (length s) - 1)%Z with (Z.of_nat (length s) - 1)%Z in Hmain by lia.
   destruct (mrunB E Fsz lookup (rev T) ast0) as [af| |]; [| |contradiction].
-  2:{ cbn [sim_res] in Hmain. rewrite Hmain. cbn [ibind]. split; discriminate. }
+  2:{ cbn [sim_res] in Hmain. rewrite Hmain. cbn [ibind]. repeat split; discriminate. }
   destruct Hmain as (c1 & -> & R1). cbn [ibind].
   destruct Hrun as [Ie Id If]. unfold delta in Ie. cbn [zc fst snd andb tdepth] in Ie, Id.
   destruct af as [stk out fts]. cbn [k_stk k_out k_fts] in *.
@@ -2066,6 +2080,673 @@ Proof.
   { lia. }
   { rewrite (rm_idx _ _ _ _ _ R1). cbn [k_stk]. lia. }
   cbn [ibind].
-  destruct (negb (inc64 (m_esize c2) =? 0)); [split; discriminate|].
-  destruct (negb (inc64 (m_fsize c2) =? 0)); split; discriminate.
+  destruct (negb (inc64 (m_esize c2) =? 0)); [repeat split; discriminate|].
+  destruct (negb (inc64 (m_fsize c2) =? 0)); repeat split; discriminate.
+Qed.
+
+(* ================= I. the grammar on tokens: shunting-yard correctness ================= *)
+Fixpoint mrun (lookup : bytes -> option bytes) (ts : list tok) (a : ast) : mres :=
+  match ts with
+  | [] => MOk a
+  | t :: r => match mtok lookup t a with MOk a' => mrun lookup r a' | x => x end
+  end.
+
+Lemma mrun_app lookup l1 l2 a :
+  mrun lookup (l1 ++ l2) a = match mrun lookup l1 a with MOk a' => mrun lookup l2 a' | x => x end.
+Proof. revert a; induction l1 as [|t l1 IH]; intro a; cbn; [reflexivity|]. destruct (mtok lookup t a); auto. Qed.
+
+Lemma popr_out_len stk : forall out stk' out', popr stk out = Some (stk', out') -> (length out <= length out')%nat.
+Proof.
+  induction stk as [|op stk IH]; intros out stk' out' H; cbn in H; [discriminate|].
+  destruct (op =? IFF_RP); [inversion H; subst; lia|]. apply IH in H. cbn in H. lia.
+Qed.
+Lemma popw_out_len p stk : forall out, (length out <= length (snd (popw p stk out)))%nat.
+Proof.
+  induction stk as [|op stk IH]; intro out; cbn; [lia|]. destruct (op <=? p); [|cbn; lia].
+  specialize (IH (op :: out)). cbn in IH. lia.
+Qed.
+
+Lemma mtok_mono lookup t a a' : mtok lookup t a = MOk a' ->
+  (length (k_out a) <= length (k_out a'))%nat /\ (length (k_fts a) <= length (k_fts a'))%nat.
+Proof.
+  destruct t; cbn [mtok]; intro H.
+  - destruct (popr (k_stk a) (k_out a)) as [[stk' out']|] eqn:Ep; [|discriminate].
+    inversion H; subst; cbn. apply popr_out_len in Ep. lia.
+  - inversion H; subst; cbn. lia.
+  - destruct (k_stk a) as [|op stk']; [inversion H; subst; cbn; lia|].
+    destruct (op =? cNOT); inversion H; subst; cbn; lia.
+  - pose proof (popw_out_len cAND (k_stk a) (k_out a)) as Hl.
+    destruct (popw cAND (k_stk a) (k_out a)) as [stk' out']. inversion H; subst; cbn in *. lia.
+  - pose proof (popw_out_len cOR (k_stk a) (k_out a)) as Hl.
+    destruct (popw cOR (k_stk a) (k_out a)) as [stk' out']. inversion H; subst; cbn in *. lia.
+  - destruct (lookup w); [|discriminate]. inversion H; subst; cbn. lia.
+Qed.
+
+Lemma mrun_mono lookup ts : forall a a', mrun lookup ts a = MOk a' ->
+  (length (k_out a) <= length (k_out a'))%nat /\ (length (k_fts a) <= length (k_fts a'))%nat.
+Proof.
+  induction ts as [|t r IH]; intros a a' H; cbn in H; [inversion H; subst; lia|].
+  destruct (mtok lookup t a) as [a1| |] eqn:Em; try discriminate.
+  apply mtok_mono in Em. apply IH in H. lia.
+Qed.
+
+Lemma mrun_mrunB E Fsz lookup ts : forall a a', mrun lookup ts a = MOk a' ->
+  (length (k_out a') <= E)%nat -> (length (k_fts a') <= Fsz)%nat -> mrunB E Fsz lookup ts a = MOk a'.
+Proof.
+  induction ts as [|t r IH]; intros a a' H H1 H2; cbn in *; [exact H|].
+  unfold mtokB. destruct (mtok lookup t a) as [a1| |] eqn:Em; try discriminate.
+  pose proof (mrun_mono _ _ _ _ H) as [M1 M2].
+  replace ((length (k_out a1) <=? E)%nat && (length (k_fts a1) <=? Fsz)%nat) with true by lia.
+  apply IH; auto.
+Qed.
+
+Definition top_gt (lvl : N) (stk : list N) : Prop := match stk with [] => True | op :: _ => lvl < op end.
+
+Lemma popw_pend p pend : Forall (fun op => op <= p) pend -> forall st out, top_gt p st ->
+  popw p (pend ++ st) out = (st, rev pend ++ out).
+Proof.
+  induction 1 as [|op pend Hop Hp IH]; intros st out Ht; cbn [app rev].
+  - destruct st as [|op st]; [reflexivity|]. cbn in *. replace (op <=? p) with false by lia. reflexivity.
+  - cbn [popw]. replace (op <=? p) with true by lia. rewrite IH by assumption. rewrite <- app_assoc. reflexivity.
+Qed.
+
+Lemma popr_pend pend : Forall (fun op => op <= 2) pend -> forall st out,
+  popr (pend ++ IFF_RP :: st) out = Some (st, rev pend ++ out).
+Proof.
+  induction 1 as [|op pend Hop Hp IH]; intros st out; cbn [app rev popr].
+  - reflexivity.
+  - replace (op =? IFF_RP) with false by (unfold IFF_RP; lia). rewrite IH. rewrite <- app_assoc. reflexivity.
+Qed.
+
+Lemma zpre_app l1 l2 z : zpre (l1 ++ l2) z = match zpre l1 z with Some z1 => zpre l2 z1 | None => None end.
+Proof. revert z; induction l1 as [|t l1 IH]; intro z; cbn; [reflexivity|]. destruct (zpre_tok t z); auto. Qed.
+
+Lemma not_adj_app l1 : forall l2 ln e, not_adj (l1 ++ l2) ln = true ->
+  not_adj l1 ln = true /\ not_adj l2 (snd (zc l1 e ln)) = true.
+Proof.
+  induction l1 as [|t l1 IH]; intros l2 ln e H; [cbn; auto|].
+  destruct t; cbn [app not_adj zc] in *.
+  - apply andb_true_iff in H. destruct H as [H1 H2]. destruct (IH _ _ e H2) as [A B]. split; [|exact B].
+    rewrite A, andb_true_r. destruct l1 as [|[] ?]; auto.
+  - apply andb_true_iff in H. destruct H as [H1 H2]. destruct (IH _ _ e H2) as [A B]. split; [|exact B].
+    rewrite A, andb_true_r. destruct l1 as [|[] ?]; auto.
+  - destruct ln; cbn [negb] in *; apply IH; auto.
+  - apply IH; auto.
+  - apply IH; auto.
+  - apply IH; auto.
+Qed.
+
+Section Grammar.
+Variable lookup : bytes -> option bytes.
+
+(* the grammar on tokens; level 0 = factor, 1 = term, 2 = expr *)
+Inductive der : N -> iexp -> list tok -> Prop :=
+| D_id x : lookup x = Some x -> der 0 (F x) [TF x]
+| D_not e ts : der 0 e ts -> der 0 (Not e) (TNOT :: ts)
+| D_paren e ts : der 2 e ts -> der 0 e (TLP :: ts ++ [TRP])
+| D_f2t e ts : der 0 e ts -> der 1 e ts
+| D_and a b ta tb : der 0 a ta -> der 1 b tb -> der 1 (And a b) (ta ++ TAND :: tb)
+| D_t2e e ts : der 1 e ts -> der 2 e ts
+| D_or a b ta tb : der 1 a ta -> der 2 b tb -> der 2 (Or a b) (ta ++ TOR :: tb).
+
+Definition SY (lvl : N) (e : iexp) (ts : list tok) : Prop :=
+  exists pend e',
+    Forall (fun op => op <= lvl) pend /\
+    (lvl = 0 -> pend = [] \/ (pend = [cNOT] /\ exists e0, e' = Not e0)) /\
+    (top_not pend = true -> is_tnot_hd ts = true) /\
+    (forall env, denote env e' = denote env e) /\
+    (forall a, top_gt lvl (k_stk a) ->
+       exists o', mrun lookup (rev ts) a = MOk {| k_stk := pend ++ k_stk a; k_out := o'; k_fts := feats e' ++ k_fts a |}
+                  /\ rev pend ++ o' = pre e' ++ k_out a) /\
+    (forall z, z_fexp z = (z_f z + 1)%Z -> not_adj ts (z_ln z) = true ->
+       exists z', zpre ts z = Some z' /\ z_j z' = z_j z /\ z_ln z' = false /\
+                  z_f z' = (z_f z + Z.of_nat (length (feats e')))%Z /\ z_fexp z' = z_f z' /\
+                  z_e z' = (z_e z + Z.of_nat (size e') - (if z_ln z && top_not pend then 2 else 0))%Z).
+
+Lemma SY_weaken l1 l2 e ts : l1 < l2 -> SY l1 e ts -> SY l2 e ts.
+Proof.
+  intros Hl (pend & e' & H1 & H2 & H3 & H4 & H5 & H6). exists pend, e'. repeat split; auto.
+  - eapply Forall_impl; [|exact H1]. intros; cbn in *; lia.
+  - intro; lia.
+  - intros a Ht. apply H5. destruct (k_stk a); cbn in *; auto; lia.
+Qed.
+
+Lemma is_tnot_hd_app l1 l2 : is_tnot_hd l1 = true -> is_tnot_hd (l1 ++ l2) = true.
+Proof. destruct l1 as [|[] ?]; cbn; auto; discriminate. Qed.
+
+Lemma der_SY lvl e ts : der lvl e ts -> SY lvl e ts.
+Proof.
+  induction 1 as [x Hx|e ts Hd IH|e ts Hd IH|e ts Hd IH|a b ta tb Ha IHa Hb IHb|e ts Hd IH|a b ta tb Ha IHa Hb IHb].
+  - (* identifier *)
+    exists [], (F x). repeat split; auto; try (cbn; discriminate).
+    + intros a Ht. cbn [rev app mrun mtok]. rewrite Hx. eexists; split; reflexivity.
+    + intros z Hz Hn. cbn [zpre zpre_tok]. eexists; split; [reflexivity|]. cbn. rewrite andb_false_r. repeat split; lia.
+  - (* not *)
+    destruct IH as (pend & e' & H1 & H2 & H3 & H4 & H5 & H6).
+    destruct (H2 eq_refl) as [-> | (-> & e0 & ->)].
+    + (* pushed *)
+      exists [cNOT], (Not e'). repeat split; auto.
+      * constructor; [reflexivity|constructor].
+      * intros _. right. split; eauto.
+      * intro env. cbn. rewrite H4. reflexivity.
+      * intros a Ht. cbn [rev]. rewrite mrun_app.
+        destruct (H5 a Ht) as (o' & Hr & Ho). rewrite Hr. cbn [app mrun mtok k_stk k_out k_fts] in *.
+        destruct (k_stk a) as [|op stk] eqn:Es.
+        -- cbn [rev app] in Ho. subst o'. eexists; split; reflexivity.
+        -- cbn in Ht. replace (op =? cNOT) with false by (change cNOT with 0; lia).
+           cbn [rev app] in Ho. subst o'. eexists; split; reflexivity.
+      * intros z Hz Hn. cbn [zpre zpre_tok not_adj] in *.
+        destruct (z_ln z) eqn:Eln; cbn [negb] in Hn.
+        -- destruct (H6 {| z_j := z_j z; z_ln := false; z_f := z_f z; z_e := z_e z - 1; z_fexp := z_fexp z |} Hz Hn)
+             as (z' & Hp & A & B & C & D & Ee).
+           exists z'. cbn in *. repeat split; auto; lia.
+        -- destruct (H6 {| z_j := z_j z; z_ln := true; z_f := z_f z; z_e := z_e z + 1; z_fexp := z_fexp z |} Hz Hn)
+             as (z' & Hp & A & B & C & D & Ee).
+           exists z'. cbn in *. repeat split; auto; lia.
+    + (* cancelled *)
+      exists [], e0. repeat split; auto; try (cbn; discriminate).
+      * intro env. cbn. rewrite <- H4. cbn. symmetry. apply negb_involutive.
+      * intros a Ht. cbn [rev]. rewrite mrun_app.
+        destruct (H5 a Ht) as (o' & Hr & Ho). rewrite Hr. cbn [app mrun mtok k_stk k_out k_fts rev pre feats] in *.
+        change (cNOT =? cNOT) with true. inversion Ho; subst. eexists; split; reflexivity.
+      * intros z Hz Hn. cbn [zpre zpre_tok not_adj] in *.
+        destruct (z_ln z) eqn:Eln; cbn [negb] in Hn.
+        -- destruct (H6 {| z_j := z_j z; z_ln := false; z_f := z_f z; z_e := z_e z - 1; z_fexp := z_fexp z |} Hz Hn)
+             as (z' & Hp & A & B & C & D & Ee).
+           exists z'. cbn in *. repeat split; auto; lia.
+        -- destruct (H6 {| z_j := z_j z; z_ln := true; z_f := z_f z; z_e := z_e z + 1; z_fexp := z_fexp z |} Hz Hn)
+             as (z' & Hp & A & B & C & D & Ee).
+           exists z'. cbn in *. repeat split; auto; lia.
+  - (* parentheses *)
+    destruct IH as (pend & e' & H1 & H2 & H3 & H4 & H5 & H6).
+    exists [], e'. repeat split; auto; try (cbn; discriminate).
+    + intros a Ht. cbn [rev]. rewrite rev_app_distr. cbn [rev app]. cbn [mrun mtok]. rewrite mrun_app.
+      destruct (H5 {| k_stk := IFF_RP :: k_stk a; k_out := k_out a; k_fts := k_fts a |}) as (o' & Hr & Ho).
+      { cbn. reflexivity. }
+      rewrite Hr. cbn [mrun mtok k_stk k_out k_fts] in *.
+      rewrite popr_pend by exact H1. eexists; split; [reflexivity|]. cbn. exact Ho.
+    + intros z Hz Hn. cbn [zpre zpre_tok]. cbn [not_adj] in Hn. apply andb_true_iff in Hn. destruct Hn as [Hn1 Hn2].
+      destruct (not_adj_app ts [TRP] (z_ln z) 0%Z Hn2) as [Hn3 _].
+      set (z1 := {| z_j := z_j z + 1; z_ln := z_ln z; z_f := z_f z; z_e := z_e z; z_fexp := z_fexp z |}).
+      destruct (H6 z1 Hz Hn3) as (z' & Hp & A & B & C & D & Ee).
+      rewrite zpre_app, Hp. cbn [zpre zpre_tok]. eexists; split; [reflexivity|]. cbn [z_j z_ln z_f z_e z_fexp z1] in *.
+      repeat split; auto; try lia.
+      assert (Hc : z_ln z && top_not pend = false).
+      { destruct (z_ln z) eqn:Eln; [|reflexivity]. destruct (top_not pend) eqn:Etn; [|reflexivity].
+        specialize (H3 eq_refl). destruct ts as [|[] ?]; try discriminate; cbn in Hn1; discriminate. }
+      rewrite Hc in Ee. cbn [top_not]. rewrite andb_false_r. lia.
+  - apply (SY_weaken 0 1); [lia|exact IH].
+  - (* and *)
+    destruct IHa as (pa & ea & A1 & A2 & A3 & A4 & A5 & A6).
+    destruct IHb as (pb & eb & B1 & B2 & B3 & B4 & B5 & B6).
+    exists (pa ++ [cAND]), (And ea eb). repeat split.
+    + apply Forall_app. split; [eapply Forall_impl; [|exact A1]; intros; cbn in *; lia|]. constructor; [reflexivity|constructor].
+    + intro; lia.
+    + intro Ht. apply is_tnot_hd_app. apply A3. destruct pa; [cbn in Ht; discriminate|exact Ht].
+    + intro env. cbn. rewrite A4, B4. reflexivity.
+    + intros st Ht. rewrite rev_app_distr. cbn [rev]. rewrite <- app_assoc. rewrite mrun_app.
+      destruct (B5 st Ht) as (ob & Hrb & Hob). rewrite Hrb. cbn [app mrun mtok k_stk k_out k_fts].
+      rewrite (popw_pend cAND pb B1 _ _ Ht).
+      destruct (A5 {| k_stk := cAND :: k_stk st; k_out := rev pb ++ ob; k_fts := feats eb ++ k_fts st |}) as (oa & Hra & Hoa).
+      { cbn. reflexivity. }
+      rewrite Hra. cbn [k_stk k_out k_fts] in *. eexists; split.
+      * cbn [feats]. rewrite <- !app_assoc. cbn [app]. reflexivity.
+      * rewrite rev_app_distr. cbn [rev app pre]. rewrite Hoa, Hob. rewrite <- !app_assoc. reflexivity.
+    + intros z Hz Hn.
+      destruct (not_adj_app ta (TAND :: tb) (z_ln z) 0%Z Hn) as [Hn1 Hn2]. cbn [not_adj] in Hn2.
+      destruct (A6 z Hz Hn1) as (z1 & Hp1 & C1 & C2 & C3 & C4 & C5).
+      rewrite zpre_app, Hp1. cbn [zpre zpre_tok]. replace (z_fexp z1 =? z_f z1)%Z with true by lia.
+      set (z2 := {| z_j := z_j z1; z_ln := false; z_f := z_f z1; z_e := z_e z1 + 1; z_fexp := z_fexp z1 + 1 |}).
+      destruct (B6 z2 ltac:(cbn; lia) Hn2) as (z3 & Hp3 & D1 & D2 & D3 & D4 & D5).
+      exists z3. split; [exact Hp3|]. cbn [z2 z_j z_ln z_f z_e z_fexp andb feats size] in *.
+      rewrite app_length. repeat split; auto; try lia.
+      replace (top_not (pa ++ [cAND])) with (top_not pa) by (destruct pa; reflexivity). lia.
+  - apply (SY_weaken 1 2); [lia|exact IH].
+  - (* or *)
+    destruct IHa as (pa & ea & A1 & A2 & A3 & A4 & A5 & A6).
+    destruct IHb as (pb & eb & B1 & B2 & B3 & B4 & B5 & B6).
+    exists (pa ++ [cOR]), (Or ea eb). repeat split.
+    + apply Forall_app. split; [eapply Forall_impl; [|exact A1]; intros; cbn in *; lia|]. constructor; [reflexivity|constructor].
+    + intro; lia.
+    + intro Ht. apply is_tnot_hd_app. apply A3. destruct pa; [cbn in Ht; discriminate|exact Ht].
+    + intro env. cbn. rewrite A4, B4. reflexivity.
+    + intros st Ht. rewrite rev_app_distr. cbn [rev]. rewrite <- app_assoc. rewrite mrun_app.
+      destruct (B5 st Ht) as (ob & Hrb & Hob). rewrite Hrb. cbn [app mrun mtok k_stk k_out k_fts].
+      rewrite (popw_pend cOR pb B1 _ _ Ht).
+      destruct (A5 {| k_stk := cOR :: k_stk st; k_out := rev pb ++ ob; k_fts := feats eb ++ k_fts st |}) as (oa & Hra & Hoa).
+      { cbn. reflexivity. }
+      rewrite Hra. cbn [k_stk k_out k_fts] in *. eexists; split.
+      * cbn [feats]. rewrite <- !app_assoc. cbn [app]. reflexivity.
+      * rewrite rev_app_distr. cbn [rev app pre]. rewrite Hoa, Hob. rewrite <- !app_assoc. reflexivity.
+    + intros z Hz Hn.
+      destruct (not_adj_app ta (TOR :: tb) (z_ln z) 0%Z Hn) as [Hn1 Hn2]. cbn [not_adj] in Hn2.
+      destruct (A6 z Hz Hn1) as (z1 & Hp1 & C1 & C2 & C3 & C4 & C5).
+      rewrite zpre_app, Hp1. cbn [zpre zpre_tok]. replace (z_fexp z1 =? z_f z1)%Z with true by lia.
+      set (z2 := {| z_j := z_j z1; z_ln := false; z_f := z_f z1; z_e := z_e z1 + 1; z_fexp := z_fexp z1 + 1 |}).
+      destruct (B6 z2 ltac:(cbn; lia) Hn2) as (z3 & Hp3 & D1 & D2 & D3 & D4 & D5).
+      exists z3. split; [exact Hp3|]. cbn [z2 z_j z_ln z_f z_e z_fexp andb feats size] in *.
+      rewrite app_length. repeat split; auto; try lia.
+      replace (top_not (pa ++ [cOR])) with (top_not pa) by (destruct pa; reflexivity). lia.
+Qed.
+
+End Grammar.
+
+(* ================= J. from the grammar on bytes to the grammar on tokens ================= *)
+Lemma items_flatten_inv its : normal its -> items (flatten its) = its.
+Proof.
+  induction its as [|it r IH]; intro Hn; [reflexivity|].
+  pose proof (normal_tail _ _ Hn) as Hr. specialize (IH Hr).
+  destruct it as [| |c|w]; cbn [flatten flat_map item_bytes app]; fold (flatten r).
+  - cbn [items N.eqb Pos.eqb]. rewrite IH. reflexivity.
+  - cbn [items N.eqb Pos.eqb]. rewrite IH. reflexivity.
+  - destruct Hn as (Hc & _ & _). cbn in Hc. cbn [items].
+    assert (c <> 40 /\ c <> 41) as [H40 H41] by (unfold is_cspace in Hc; lia).
+    replace (c =? 40) with false by lia. replace (c =? 41) with false by lia. rewrite Hc, IH. reflexivity.
+  - destruct Hn as ((Hne & Hw) & Hnw & _).
+    induction w as [|c w IHw]; [congruence|]. cbn [forallb] in Hw. apply andb_true_iff in Hw. destruct Hw as [Hc Hw].
+    destruct (wordch_facts _ Hc) as (H0 & H40 & H41 & Hs).
+    cbn [app items]. replace (c =? 40) with false by lia. replace (c =? 41) with false by lia. rewrite Hs.
+    destruct w as [|d w].
+    + cbn [app]. rewrite IH. destruct r as [|[| | |] ?]; try reflexivity. contradiction.
+    + rewrite IHw; auto. discriminate.
+Qed.
+
+Lemma flatten_nonzero its : normal its -> Forall (fun c => c <> 0) (flatten its).
+Proof.
+  induction its as [|it r IH]; intro Hn; [constructor|].
+  pose proof (normal_tail _ _ Hn) as Hr. destruct Hn as (Hi & _ & _).
+  cbn [flatten flat_map]. apply Forall_app. split; [|apply IH; exact Hr].
+  destruct it as [| |c|w]; cbn [item_bytes]; try (constructor; [discriminate|constructor]).
+  - cbn in Hi. constructor; [apply cspace_nonzero; exact Hi|constructor].
+  - destruct Hi as [_ Hw]. apply Forall_forall. intros c Hc. eapply forallb_forall in Hw; [|exact Hc].
+    apply wordch_facts in Hw. tauto.
+Qed.
+
+Definition sps (w : bytes) : list item := map ISP w.
+
+Lemma flatten_sps w l : flatten (sps w ++ l) = w ++ flatten l.
+Proof. induction w as [|c w IH]; [reflexivity|]. cbn [sps map app flatten flat_map item_bytes]. f_equal. exact IH. Qed.
+Lemma normal_sps w l : forallb is_cspace w = true -> normal l -> normal (sps w ++ l).
+Proof.
+  induction w as [|c w IH]; intros Hw Hl; [exact Hl|]. cbn [forallb] in Hw. apply andb_true_iff in Hw. destruct Hw as [Hc Hw].
+  cbn [sps map app normal item_ok]. repeat split; auto.
+Qed.
+Lemma sepn_sps w l : sepn l -> sepn (sps w ++ l).
+Proof. induction w as [|c w IH]; intro Hl; [exact Hl|]. cbn [sps map app sepn]. split; auto. Qed.
+Lemma toksc_sps w l nxt : toksc (sps w ++ l) nxt = toksc l nxt.
+Proof. induction w as [|c w IH]; [reflexivity|]. cbn [sps map app toksc]. exact IH. Qed.
+Lemma all_sp_app_r l1 l2 : all_sp l2 = false -> all_sp (l1 ++ l2) = false.
+Proof. intro H. unfold all_sp in *. rewrite forallb_app, H. apply andb_false_r. Qed.
+Lemma trailing_kw_app l1 l2 : all_sp l2 = false -> trailing_kw (l1 ++ l2) = trailing_kw l2.
+Proof.
+  intro H. induction l1 as [|it l1 IH]; [reflexivity|]. destruct it; cbn [app trailing_kw]; auto.
+  rewrite (all_sp_app_r l1 l2 H), andb_false_r. exact IH.
+Qed.
+
+Lemma normal_app_sp l1 c l2 : normal l1 -> normal (ISP c :: l2) -> normal (l1 ++ ISP c :: l2).
+Proof.
+  induction l1 as [|x l1 IH]; intros H1 H2; [exact H2|].
+  cbn [app]. destruct H1 as (Hx & Hb & Hr). cbn [normal]. repeat split; auto.
+  destruct l1 as [|y l1]; cbn [app]; [destruct x; exact I|exact Hb].
+Qed.
+Lemma sepn_app_sp l1 c l2 : sepn l1 -> sepn (ISP c :: l2) -> sepn (l1 ++ ISP c :: l2).
+Proof.
+  induction l1 as [|x l1 IH]; intros H1 H2; [exact H2|].
+  cbn [app]. destruct H1 as (Hb & Hr). cbn [sepn]. split; auto.
+  destruct l1 as [|y l1]; cbn [app]; [destruct x; exact I|exact Hb].
+Qed.
+Lemma normal_app_rp l : normal l -> normal (l ++ [IRP]).
+Proof.
+  induction l as [|x l IH]; intro H; [cbn; auto|].
+  cbn [app]. destruct H as (Hx & Hb & Hr). cbn [normal]. repeat split; auto.
+  destruct l as [|y l]; cbn [app]; [destruct x; exact I|exact Hb].
+Qed.
+Lemma sepn_app_rp l : sepn l -> sepn (l ++ [IRP]).
+Proof.
+  induction l as [|x l IH]; intro H; [cbn; auto|].
+  cbn [app]. destruct H as (Hb & Hr). cbn [sepn]. split; auto.
+  destruct l as [|y l]; cbn [app]; [destruct x; exact I|exact Hb].
+Qed.
+
+Lemma sep_cons w : is_sep w -> exists c w', w = c :: w' /\ is_cspace c = true /\ forallb is_cspace w' = true.
+Proof.
+  intros [Hne Hw]. destruct w as [|c w']; [congruence|]. cbn in Hw. apply andb_true_iff in Hw. destruct Hw. eauto.
+Qed.
+
+Lemma kw_item_ok kw : kw = KW_NOT \/ kw = KW_AND \/ kw = KW_OR -> item_ok (IW kw).
+Proof. intros [->|[->| ->]]; cbn; split; try discriminate; reflexivity. Qed.
+
+Section Bytes2Tokens.
+Variable lookup : bytes -> option bytes.
+
+Definition G (lvl : N) (e : iexp) (r : bytes) : Prop :=
+  (forall x, In x (feats e) -> lookup x = Some x) ->
+  exists its tk, flatten its = r /\ normal its /\ sepn its /\ all_sp its = false /\ trailing_kw its = false /\
+    (forall nxt, toksc its nxt = tk) /\ der lookup lvl e tk.
+
+(* left ++ sep ++ keyword ++ sep ++ right *)
+Lemma G_binop kw t ia ib tka tkb w1 w2 :
+  (kw = KW_AND /\ t = TAND) \/ (kw = KW_OR /\ t = TOR) ->
+  is_sep w1 -> is_sep w2 ->
+  normal ia -> sepn ia -> (forall nxt, toksc ia nxt = tka) ->
+  normal ib -> sepn ib -> all_sp ib = false -> trailing_kw ib = false -> (forall nxt, toksc ib nxt = tkb) ->
+  let its := ia ++ sps w1 ++ IW kw :: sps w2 ++ ib in
+  flatten its = flatten ia ++ w1 ++ kw ++ w2 ++ flatten ib /\ normal its /\ sepn its /\ all_sp its = false /\
+  trailing_kw its = false /\ (forall nxt, toksc its nxt = tka ++ t :: tkb).
+Proof.
+  intros Hkw Hs1 Hs2 Hna Hsa Hta Hnb Hsb Hab Htb Htkb its.
+  destruct (sep_cons _ Hs1) as (c1 & v1 & -> & Hc1 & Hv1).
+  destruct (sep_cons _ Hs2) as (c2 & v2 & -> & Hc2 & Hv2).
+  assert (Hik : item_ok (IW kw)) by (apply kw_item_ok; destruct Hkw as [[-> _]|[-> _]]; auto).
+  assert (Hn2 : normal (IW kw :: sps (c2 :: v2) ++ ib)).
+  { cbn [sps map app normal]. refine (conj Hik (conj I (conj Hc2 (conj I _)))). apply normal_sps; auto. }
+  assert (Hs2' : sepn (IW kw :: sps (c2 :: v2) ++ ib)).
+  { cbn [sps map app sepn]. refine (conj I (conj I _)). apply sepn_sps; auto. }
+  unfold its. repeat split.
+  - rewrite flatten_app, flatten_sps. cbn [flatten flat_map item_bytes]. fold (flatten (sps (c2 :: v2) ++ ib)).
+    rewrite flatten_sps. reflexivity.
+  - cbn [sps map app]. apply normal_app_sp; auto. cbn [normal]. refine (conj Hc1 (conj I _)). apply normal_sps; auto.
+  - cbn [sps map app]. apply sepn_app_sp; auto. cbn [sepn]. refine (conj I _). apply sepn_sps; auto.
+  - apply all_sp_app_r. apply all_sp_app_r. reflexivity.
+  - rewrite trailing_kw_app by (apply all_sp_app_r; reflexivity).
+    rewrite trailing_kw_app by reflexivity. cbn [trailing_kw].
+    rewrite (all_sp_app_r (sps (c2 :: v2)) ib Hab), andb_false_r.
+    rewrite trailing_kw_app by exact Hab. exact Htb.
+  - intro nxt. rewrite toksc_app. cbn [sps map app next_is_sp]. rewrite Hta. f_equal.
+    change (ISP c1 :: map ISP v1 ++ IW kw :: ISP c2 :: map ISP v2 ++ ib) with (sps (c1 :: v1) ++ IW kw :: sps (c2 :: v2) ++ ib).
+    rewrite toksc_sps. cbn [toksc sps map app next_is_sp].
+    change (ISP c2 :: map ISP v2 ++ ib) with (sps (c2 :: v2) ++ ib). rewrite toksc_sps, Htkb.
+    destruct Hkw as [[-> ->]|[-> ->]]; reflexivity.
+Qed.
+
+Scheme rexpr_ind2 := Induction for rexpr Sort Prop
+  with rterm_ind2 := Induction for rterm Sort Prop
+  with rfactor_ind2 := Induction for rfactor Sort Prop.
+Combined Scheme rgrammar_ind from rexpr_ind2, rterm_ind2, rfactor_ind2.
+
+Lemma grammar_tokens :
+  (forall e r, rexpr e r -> G 2 e r) /\ (forall e r, rterm e r -> G 1 e r) /\ (forall e r, rfactor e r -> G 0 e r).
+Proof.
+  apply rgrammar_ind; unfold G.
+  - (* expr = term *)
+    intros e r _ IH Hl. destruct (IH Hl) as (its & tk & H1 & H2 & H3 & H4 & H5 & H6 & H7).
+    exists its, tk. repeat split; auto. apply D_t2e. exact H7.
+  - (* or *)
+    intros a b ra w1 w2 rb _ IHa Hs1 Hs2 _ IHb Hl.
+    destruct (IHa ltac:(intros; apply Hl; cbn; apply in_or_app; auto)) as (ia & tka & A1 & A2 & A3 & A4 & A5 & A6 & A7).
+    destruct (IHb ltac:(intros; apply Hl; cbn; apply in_or_app; auto)) as (ib & tkb & B1 & B2 & B3 & B4 & B5 & B6 & B7).
+    destruct (G_binop KW_OR TOR ia ib tka tkb w1 w2 ltac:(right; auto) Hs1 Hs2 A2 A3 A6 B2 B3 B4 B5 B6)
+      as (C1 & C2 & C3 & C4 & C5 & C6).
+    eexists; exists (tka ++ TOR :: tkb). repeat split; eauto.
+    + rewrite C1, A1, B1. reflexivity.
+    + apply D_or; auto.
+  - intros e r _ IH Hl. destruct (IH Hl) as (its & tk & H1 & H2 & H3 & H4 & H5 & H6 & H7).
+    exists its, tk. repeat split; auto. apply D_f2t. exact H7.
+  - (* and *)
+    intros a b ra w1 w2 rb _ IHa Hs1 Hs2 _ IHb Hl.
+    destruct (IHa ltac:(intros; apply Hl; cbn; apply in_or_app; auto)) as (ia & tka & A1 & A2 & A3 & A4 & A5 & A6 & A7).
+    destruct (IHb ltac:(intros; apply Hl; cbn; apply in_or_app; auto)) as (ib & tkb & B1 & B2 & B3 & B4 & B5 & B6 & B7).
+    destruct (G_binop KW_AND TAND ia ib tka tkb w1 w2 ltac:(left; auto) Hs1 Hs2 A2 A3 A6 B2 B3 B4 B5 B6)
+      as (C1 & C2 & C3 & C4 & C5 & C6).
+    eexists; exists (tka ++ TAND :: tkb). repeat split; eauto.
+    + rewrite C1, A1, B1. reflexivity.
+    + apply D_and; auto.
+  - (* not *)
+    intros e w r Hs _ IH Hl. destruct (IH Hl) as (its & tk & H1 & H2 & H3 & H4 & H5 & H6 & H7).
+    destruct (sep_cons _ Hs) as (c & v & -> & Hc & Hv).
+    exists (IW KW_NOT :: sps (c :: v) ++ its), (TNOT :: tk).
+    refine (conj _ (conj _ (conj _ (conj _ (conj _ (conj _ _)))))).
+    + cbn [flatten flat_map item_bytes]. fold (flatten (sps (c :: v) ++ its)). rewrite flatten_sps, H1. reflexivity.
+    + cbn [sps map app normal].
+      refine (conj (kw_item_ok KW_NOT (or_introl eq_refl)) (conj I (conj Hc (conj I _)))). apply normal_sps; auto.
+    + cbn [sps map app sepn]. refine (conj I (conj I _)). apply sepn_sps; auto.
+    + reflexivity.
+    + cbn [trailing_kw]. rewrite (all_sp_app_r (sps (c :: v)) its H4), andb_false_r.
+      rewrite trailing_kw_app by exact H4. exact H5.
+    + intro nxt. cbn [sps map app toksc next_is_sp]. change (ISP c :: map ISP v ++ its) with (sps (c :: v) ++ its).
+      rewrite toksc_sps, H6. reflexivity.
+    + apply D_not. exact H7.
+  - (* parentheses *)
+    intros e w1 w2 r Hw1 Hw2 _ IH Hl. destruct (IH Hl) as (its & tk & H1 & H2 & H3 & H4 & H5 & H6 & H7).
+    exists (ILP :: sps w1 ++ its ++ sps w2 ++ [IRP]), (TLP :: tk ++ [TRP]).
+    assert (Hn : normal (its ++ sps w2 ++ [IRP])).
+    { destruct w2 as [|c2 v2]; [apply normal_app_rp; exact H2|].
+      unfold is_optsep in Hw2. cbn [forallb] in Hw2. apply andb_true_iff in Hw2. destruct Hw2 as [Hc2 Hv2].
+      cbn [sps map app]. apply normal_app_sp; auto. cbn [normal]. refine (conj Hc2 (conj I _)).
+      apply normal_sps; cbn; auto. }
+    assert (Hs : sepn (its ++ sps w2 ++ [IRP])).
+    { destruct w2 as [|c2 v2]; [apply sepn_app_rp; exact H3|].
+      cbn [sps map app]. apply sepn_app_sp; auto. cbn [sepn]. refine (conj I _). apply sepn_sps; cbn; auto. }
+    refine (conj _ (conj _ (conj _ (conj _ (conj _ (conj _ _)))))).
+    + cbn [flatten flat_map item_bytes]. fold (flatten (sps w1 ++ its ++ sps w2 ++ [IRP])).
+      rewrite flatten_sps, flatten_app, flatten_sps, H1. cbn. reflexivity.
+    + cbn [normal]. refine (conj I (conj I _)). apply normal_sps; auto.
+    + cbn [sepn]. refine (conj I _). apply sepn_sps; auto.
+    + reflexivity.
+    + cbn [trailing_kw].
+      rewrite (trailing_kw_app (sps w1)) by (apply all_sp_app_r, all_sp_app_r; reflexivity).
+      rewrite (trailing_kw_app its) by (apply all_sp_app_r; reflexivity).
+      rewrite (trailing_kw_app (sps w2)) by reflexivity. reflexivity.
+    + intro nxt. cbn [toksc]. rewrite toksc_sps. rewrite toksc_app.
+      replace (match sps w2 ++ [IRP] with [] => nxt | _ :: _ => next_is_sp (sps w2 ++ [IRP]) end)
+        with (next_is_sp (sps w2 ++ [IRP])) by (destruct w2; reflexivity).
+      rewrite H6, toksc_sps. reflexivity.
+    + apply D_paren. exact H7.
+  - (* identifier *)
+    intros x (Hne & Hw & Hk1 & Hk2 & Hk3) Hl.
+    assert (Hnk : is_kw x = false).
+    { unfold is_kw. destruct (beq_bytes x KW_NOT) eqn:B1; [apply beq_bytes_eq in B1; congruence|].
+      destruct (beq_bytes x KW_AND) eqn:B2; [apply beq_bytes_eq in B2; congruence|].
+      destruct (beq_bytes x KW_OR) eqn:B3; [apply beq_bytes_eq in B3; congruence|]. reflexivity. }
+    exists [IW x], [TF x].
+    refine (conj _ (conj _ (conj _ (conj _ (conj _ (conj _ _)))))).
+    + cbn. apply app_nil_r.
+    + cbn [normal item_ok]. auto.
+    + cbn. auto.
+    + reflexivity.
+    + cbn [trailing_kw]. rewrite Hnk. reflexivity.
+    + intro nxt. cbn [toksc]. rewrite not_kw_classify by exact Hnk. reflexivity.
+    + apply D_id. apply Hl. cbn. auto.
+Qed.
+
+End Bytes2Tokens.
+
+Lemma size_pos e : (1 <= size e)%nat.
+Proof. destruct e; cbn; lia. Qed.
+Lemma feats_pos e : (1 <= length (feats e))%nat.
+Proof. induction e; cbn; rewrite ?app_length; lia. Qed.
+
+(* iffeature_correct, for the renderings on which the pre-pass cancels only adjacent nots *)
+Theorem compile_grammar lookup e r :
+  rexpr e r -> (forall x, In x (feats e) -> lookup x = Some x) ->
+  not_cancel_adjacent r = true -> Bnd r ->
+  exists c, compile lookup true r = IOk c /\ forall env, iff_value c env = IOk (denote env e).
+Proof.
+  intros Hr Hl Hnot Hb. unfold len_ok in Hb.
+  destruct (proj1 (grammar_tokens lookup) e r Hr Hl) as (its & tk & Hfl & Hnorm & Hsepn & Hall & Htr & Htk & Hder).
+  assert (Hit : items r = its) by (rewrite <- Hfl; apply items_flatten_inv; exact Hnorm).
+  assert (Hnz : Forall (fun c => c <> 0) r) by (rewrite <- Hfl; apply flatten_nonzero; exact Hnorm).
+  assert (HT : toks its = tk) by (rewrite toks_toksc; apply Htk).
+  unfold not_cancel_adjacent in Hnot. rewrite Hit, HT in Hnot.
+  pose proof (items_length r) as Hil. rewrite Hit in Hil.
+  destruct (der_SY lookup 2 e tk Hder) as (pend & e' & S1 & _ & _ & S4 & S5 & S6).
+  destruct (S6 z0 eq_refl Hnot) as (z' & Hz & Zj & Zl & Zf & Zx & Ze). cbn [z0 z_j z_f z_e z_ln andb] in Zj, Zf, Ze.
+  unfold compile. rewrite (pre_loop_string r Hnz). rewrite Hit.
+  assert (HR0 : Rz pa0 z0) by (repeat split).
+  assert (HW0 : WFz z0 (length its)).
+  { unfold WFz, z0, ZU. cbn [z_f z_e z_fexp z_ln z_j]. repeat split; try lia; try discriminate. }
+  pose proof (pre_items_zpre _ its eq_refl pa0 z0 Hnorm HR0 HW0) as Hpre. rewrite HT, Hz, Htr in Hpre.
+  destruct Hpre as (a' & -> & HRz & HWz). cbn [ibind p_j p_fexp p_fsize p_cv p_esize p_i mk_pre].
+  destruct HRz as (Rj & Rl & Rf & Re & Rx).
+  replace (a_j a' =? 0)%Z with true by lia. cbn [negb].
+  replace (a_fexp a' =? a_f a') with true by lia. cbn [negb]. rewrite andb_false_r.
+  (* sizes *)
+  pose proof (zpre_facts tk z0 z' Hz) as (Hzc & Hzf & _). cbn [z0 z_e z_ln z_f] in Hzc, Hzf.
+  pose proof (zc_le tk 0%Z false) as Hle1. rewrite <- Hzc in Hle1. cbn [fst] in Hle1.
+  pose proof (ntf_le tk) as Hle2. pose proof (toks_length its) as Hle3. rewrite HT in Hle3.
+  pose proof (size_pos e') as HE1. pose proof (feats_pos e') as HF1.
+  set (E := size e') in *. set (Fsz := length (feats e')) in *.
+  assert (Hae : a_e a' = N.of_nat E) by lia.
+  assert (Haf : a_f a' = N.of_nat Fsz) by lia.
+  rewrite Hae, Haf.
+  replace ((N.of_nat (length r) <? N.of_nat E) || (N.of_nat (length r) <? N.of_nat Fsz)) with false by lia.
+  rewrite !Nat2N.id.
+  set (B := (E + length its + 4)%nat).
+  assert (HBz : (Z.of_nat B + 4 < ZU)%Z) by (unfold B, ZU; lia).
+  assert (HEzu : (Z.of_nat E < ZU)%Z) by (unfold ZU; lia).
+  assert (HFzu : (Z.of_nat Fsz < ZU)%Z) by (unfold ZU; lia).
+  pose proof (init_Rm E Fsz B ltac:(unfold B; lia) HEzu HFzu HE1 HF1) as HR.
+  pose proof (main_loop_items E Fsz B lookup HEzu HFzu HBz its [] _ ast0 (S (S (length r))) (S (S (length r)))
+                ltac:(rewrite app_nil_r; exact Hnorm) ltac:(rewrite app_nil_r; exact Hsepn) HR) as Hmain.
+  cbn [flatten flat_map next_is_sp] in Hmain. rewrite !app_nil_r in Hmain. rewrite Hfl in Hmain.
+  rewrite <- toks_toksc, HT in Hmain.
+  specialize (Hmain ltac:(lia) ltac:(lia) ltac:(cbn; unfold B; lia) ltac:(cbn; lia)).
+  (* the token machine *)
+  destruct (S5 ast0 I) as (o' & Hrun & Ho). cbn [ast0 k_stk k_out k_fts] in Hrun, Ho. rewrite !app_nil_r in *.
+  assert (Hlen : (length pend + length o' = E)%nat).
+  { apply (f_equal (@length N)) in Ho. rewrite app_length, rev_length, pre_length in Ho. exact Ho. }
+  rewrite (mrun_mrunB E Fsz lookup _ _ _ Hrun) in Hmain by (cbn; lia).
+  destruct Hmain as (c1 & -> & R1). cbn [ibind].
+  assert (Hlt4 : Forall (fun op => op < 4) pend) by (eapply Forall_impl; [|exact S1]; intros; cbn in *; lia).
+  destruct (flush_ok E Fsz B HEzu HFzu HBz pend o' (feats e') c1 (S (N.to_nat (s_index (m_stack c1)))) R1 Hlt4) as (c2 & -> & R2).
+  { lia. }
+  { rewrite (rm_idx _ _ _ _ _ R1). cbn [k_stk]. lia. }
+  cbn [ibind]. rewrite Ho in R2.
+  pose proof (rm_esize _ _ _ _ _ R2) as Hes. pose proof (rm_fsize _ _ _ _ _ R2) as Hfs.
+  cbn [mk_ast k_out k_fts] in Hes, Hfs. rewrite pre_length in Hes. fold E in Hes. fold Fsz in Hfs.
+  assert (He0 : inc64 (m_esize c2) = 0).
+  { replace (Z.of_nat E - 1 - Z.of_nat E)%Z with (-1)%Z in Hes by lia. change ((-1) mod ZU)%Z with (ZU - 1)%Z in Hes.
+    unfold inc64, U64. unfold ZU in Hes. replace (m_esize c2) with 18446744073709551615 by lia. reflexivity. }
+  assert (Hf0 : inc64 (m_fsize c2) = 0).
+  { replace (Z.of_nat Fsz - 1 - Z.of_nat Fsz)%Z with (-1)%Z in Hfs by lia. change ((-1) mod ZU)%Z with (ZU - 1)%Z in Hfs.
+    unfold inc64, U64. unfold ZU in Hfs. replace (m_fsize c2) with 18446744073709551615 by lia. reflexivity. }
+  rewrite He0, Hf0. cbn [N.eqb negb].
+  eexists; split; [reflexivity|]. intro env. rewrite <- S4.
+  (* evaluation of the compiled arrays *)
+  unfold iff_value.
+  pose proof (rm_out _ _ _ _ _ R2) as Hout. cbn [mk_ast k_out] in Hout. rewrite pre_length in Hout. fold E in Hout.
+  rewrite Nat.sub_diag in Hout. cbn [skipn] in Hout.
+  pose proof (rm_fts _ _ _ _ _ R2) as Hfts. cbn [mk_ast k_fts] in Hfts. fold Fsz in Hfts.
+  rewrite Nat.sub_diag in Hfts. cbn [skipn] in Hfts.
+  pose proof (rm_expr_len _ _ _ _ _ R2) as Hel.
+  rewrite (iff_value_codes e' _ (m_expr c2) (m_feat c2) env 0 0 (rm_expr_b _ _ _ _ _ R2)).
+  - reflexivity.
+  - fold E. lia.
+  - exists [], (skipn E (unpack (m_expr c2))). cbn [app length N.to_nat]. split; [|reflexivity].
+    rewrite <- Hout. symmetry. apply firstn_skipn.
+  - exists [], []. cbn [app length N.to_nat]. rewrite app_nil_r. auto.
+  - fold E. unfold U64. unfold ZU in HEzu. lia.
+  - fold E. unfold U64. unfold ZU in HEzu. lia.
+Qed.
+
+(* ---------- the refutations: three inputs on which the faithful model leaves its arrays ---------- *)
+Definition w_not_paren : bytes := [110;111;116;32;40;110;111;116;32;97;41].      (* not (not a) *)
+Definition w_neg_depth : bytes := [41;97;40].                                     (* )a( *)
+Definition w_neg_depth2 : bytes := [97;32;41;40].                                 (* a )( *)
+Definition w_rp_word : bytes := [40;41;110;111;116;32;110;111;116;32;98].         (* ()not not b *)
+
+Lemma oob_not_paren : compile lookup_abc true w_not_paren = IOob.
+Proof. vm_compute. reflexivity. Qed.
+Lemma oob_neg_depth : compile lookup_abc true w_neg_depth = IOob.
+Proof. vm_compute. reflexivity. Qed.
+Lemma oob_neg_depth2 : compile lookup_abc true w_neg_depth2 = IOob.
+Proof. vm_compute. reflexivity. Qed.
+Lemma oob_rp_word : compile lookup_abc true w_rp_word = IOob.
+Proof. vm_compute. reflexivity. Qed.
+
+Lemma name_ok_a : name_ok [97].
+Proof. unfold name_ok. repeat split; try discriminate. Qed.
+
+Lemma rexpr_not_paren : rexpr (Not (Not (F [97]))) w_not_paren.
+Proof.
+  apply RE_term, RT_factor.
+  apply (RF_not (Not (F [97])) [32] ([40] ++ [] ++ (KW_NOT ++ [32] ++ [97]) ++ [] ++ [41])).
+  - split; [discriminate|reflexivity].
+  - apply RF_paren; try reflexivity. apply RE_term, RT_factor. apply RF_not.
+    + split; [discriminate|reflexivity].
+    + apply RF_id. exact name_ok_a.
+Qed.
+
+(* each of the three side conditions alone is violated by one of the witnesses *)
+Lemma witnesses_conditions :
+  (depth_nonneg w_not_paren 0, not_cancel_adjacent w_not_paren, rp_sep w_not_paren) = (true, false, true) /\
+  (depth_nonneg w_neg_depth 0, not_cancel_adjacent w_neg_depth, rp_sep w_neg_depth) = (false, true, false) /\
+  (depth_nonneg w_neg_depth2 0, not_cancel_adjacent w_neg_depth2, rp_sep w_neg_depth2) = (false, true, true) /\
+  (depth_nonneg w_rp_word 0, not_cancel_adjacent w_rp_word, rp_sep w_rp_word) = (true, true, false).
+Proof. vm_compute. repeat split. Qed.
+
+(* ================= K. the two renderers are in the grammar; C strings ================= *)
+Lemma rfactor_paren e r s : rexpr e r -> s = [40] ++ r ++ [41] -> rfactor e s.
+Proof.
+  intros H ->. replace ([40] ++ r ++ [41]) with ([40] ++ [] ++ r ++ [] ++ [41]) by reflexivity.
+  apply RF_paren; auto; reflexivity.
+Qed.
+
+Lemma sep_sp : is_sep [32]. Proof. split; [discriminate|reflexivity]. Qed.
+
+Lemma render_full_factor e : names_ok e -> rfactor e (render_full e).
+Proof.
+  unfold names_ok. induction e as [x|a IHa|a IHa b IHb|a IHa b IHb]; cbn [feats render_full]; intro Hn.
+  - apply RF_id. inversion Hn; auto.
+  - eapply rfactor_paren with (r := KW_NOT ++ [32] ++ render_full a).
+    + apply RE_term, RT_factor. apply (RF_not a [32] (render_full a) sep_sp). auto.
+    + rewrite <- !app_assoc. reflexivity.
+  - apply Forall_app in Hn. destruct Hn as [Ha Hb].
+    eapply rfactor_paren with (r := render_full a ++ [32] ++ KW_AND ++ [32] ++ render_full b).
+    + apply RE_term. apply RT_and; auto using sep_sp. apply RT_factor; auto.
+    + rewrite <- !app_assoc. reflexivity.
+  - apply Forall_app in Hn. destruct Hn as [Ha Hb].
+    eapply rfactor_paren with (r := render_full a ++ [32] ++ KW_OR ++ [32] ++ render_full b).
+    + apply RE_or; auto using sep_sp. * apply RT_factor; auto. * apply RE_term, RT_factor; auto.
+    + rewrite <- !app_assoc. reflexivity.
+Qed.
+
+Lemma render_full_rexpr e : names_ok e -> rexpr e (render_full e).
+Proof. intro H. apply RE_term, RT_factor, render_full_factor, H. Qed.
+
+Lemma render_min_all e : names_ok e ->
+  rfactor e (render_min 0 e) /\ rterm e (render_min 1 e) /\ rexpr e (render_min 2 e).
+Proof.
+  unfold names_ok. induction e as [x|a IHa|a IHa b IHb|a IHa b IHb]; cbn [feats render_min]; intro Hn.
+  - assert (rfactor (F x) x) by (apply RF_id; inversion Hn; auto).
+    repeat split; [assumption|apply RT_factor; assumption|apply RE_term, RT_factor; assumption].
+  - destruct (IHa Hn) as (Hf & _ & _).
+    assert (rfactor (Not a) (KW_NOT ++ [32] ++ render_min 0 a)) by (apply RF_not; auto using sep_sp).
+    repeat split; [assumption|apply RT_factor; assumption|apply RE_term, RT_factor; assumption].
+  - apply Forall_app in Hn. destruct Hn as [Ha Hb].
+    destruct (IHa Ha) as (Hfa & _ & _). destruct (IHb Hb) as (_ & Htb & _).
+    assert (Ht : rterm (And a b) (render_min 0 a ++ [32] ++ KW_AND ++ [32] ++ render_min 1 b))
+      by (apply RT_and; auto using sep_sp).
+    cbn [Nat.ltb Nat.leb]. repeat split; [|assumption|apply RE_term; assumption].
+    eapply rfactor_paren; [apply RE_term; eassumption|reflexivity].
+  - apply Forall_app in Hn. destruct Hn as [Ha Hb].
+    destruct (IHa Ha) as (_ & Hta & _). destruct (IHb Hb) as (_ & _ & Heb).
+    assert (He : rexpr (Or a b) (render_min 1 a ++ [32] ++ KW_OR ++ [32] ++ render_min 2 b))
+      by (apply RE_or; auto using sep_sp).
+    cbn [Nat.ltb Nat.leb]. repeat split; [| |assumption].
+    + eapply rfactor_paren; [eassumption|reflexivity].
+    + apply RT_factor. eapply rfactor_paren; [eassumption|reflexivity].
+Qed.
+
+Lemma render_min_rexpr e : names_ok e -> rexpr e (render_min 2 e).
+Proof. intro H. apply render_min_all, H. Qed.
+
+(* the compiler on an arbitrary byte string (read as a C string) *)
+Theorem compile_c_no_oob_partial lookup v11 s :
+  len_ok (cstr s) ->
+  depth_nonneg (cstr s) 0 = true -> not_cancel_adjacent (cstr s) = true -> rp_sep (cstr s) = true ->
+  compile_c lookup v11 s <> IOob /\ compile_c lookup v11 s <> IErr E_FUEL /\ compile_c lookup v11 s <> IErr E_MEM.
+Proof. intros. unfold compile_c. apply compile_no_oob_partial; auto. apply cstr_nonzero. Qed.
+
+Lemma eval_prefix_correct' e env cnt :
+  N.of_nat (length (pre e)) < U64 ->
+  iff_value (pack (pre e), map Some (feats e), cnt) env = IOk (denote env e).
+Proof. rewrite pre_length. apply eval_prefix_correct. Qed.
+
+(* examples used in the Properties files *)
+Definition ex_e : iexp := Or (And (F [97]) (Not (Not (F [98])))) (Not (And (F [99]) (Not (F [97])))).
+Lemma ex_e_names : names_ok ex_e.
+Proof.
+  unfold names_ok, ex_e. cbn [feats app].
+  repeat (constructor; [unfold name_ok; repeat split; try discriminate|]). constructor.
 Qed.
